@@ -154,6 +154,21 @@ func (e *Engine) sliceVC(o *Oblig, full bool, getValues []string) string {
 			}
 		}
 	}
+	// every reference stored in the heap at function entry refers to a pre-existing object
+	for x := range used {
+		if !strings.HasPrefix(x, "|H0.") {
+			continue
+		}
+		name := strings.TrimSuffix(strings.TrimPrefix(x, "|H0."), "|")
+		if !e.refComp[name] {
+			continue
+		}
+		if strings.HasPrefix(e.comps[name], "(Array Int (Array Int") {
+			fmt.Fprintf(&b, "(assert (forall ((r Int) (i Int)) (! (<= (select (select %s r) i) pre) :pattern ((select (select %s r) i)))))\n", x, x)
+		} else {
+			fmt.Fprintf(&b, "(assert (forall ((r Int)) (! (<= (select %s r) pre) :pattern ((select %s r)))))\n", x, x)
+		}
+	}
 	b.WriteString(bs)
 	b.WriteString("(check-sat)\n")
 	if len(getValues) > 0 {
